@@ -76,6 +76,22 @@ def directed_handle_histories():
                 calls += [{"op": "close", "h": "a"}, {"op": "readfile", "name": "/f"}, {"op": "stat", "name": "/f"}]
                 hs.append({"config": {"rs": [1, 3, 20][k % 3], "cache": "file"}, "blobs": blobs, "obs": [], "calls": calls, "_directed": True})
                 k += 1
+    # handles opened on an EMPTY file (O_TRUNC has nothing to truncate, the handle starts in read mode): position the cursor
+    # (also behind the end), then the first write / positioned write / truncate must start from that position
+    for fl in (hist.O_RDWR, hist.O_RDWR | hist.O_TRUNC, hist.O_RDWR | hist.O_APPEND, hist.O_WRONLY | hist.O_TRUNC):
+        for pre in ([{"op": "seek", "whence": 0, "off": 20}], [{"op": "seek", "whence": 2, "off": 7}, {"op": "seek", "whence": 1, "off": 3}], [{"op": "read", "n": 5}, {"op": "seek", "whence": 0, "off": 600}]):
+            for act in ({"op": "write", "data": base64.b64encode(pat(2, 0, 4)).decode()}, {"op": "writeat", "off": 3, "data": base64.b64encode(pat(2, 0, 4)).decode()}, {"op": "truncate", "off": 9}):
+                if act["op"] == "writeat" and fl & hist.O_APPEND:
+                    continue
+                for size0 in (0, 10):
+                    calls = [{"op": "initialize"}, {"op": "createfile", "name": "/f", "blob": 0}, {"op": "open", "h": "a", "name": "/f", "flags": fl, "perm": 0o644}]
+                    # (the k-th write of a history carries the pattern with seed k+1: the convention of the model tie)
+                    last = 3 if act["op"] != "truncate" else 2
+                    calls += [dict(c, h="a") for c in pre] + [dict(act, h="a"), {"op": "seek", "h": "a", "whence": 1, "off": 0}, {"op": "write", "h": "a", "data": base64.b64encode(pat(last, 0, 2)).decode()},
+                                                              {"op": "close", "h": "a"}, {"op": "readfile", "name": "/f"}, {"op": "stat", "name": "/f"}]
+                    bl = [{"seed": 1, "len": size0}, {"seed": 2, "len": 4}, {"seed": 3, "len": 2}] if act["op"] != "truncate" else [{"seed": 1, "len": size0}, {"seed": 2, "len": 2}]
+                    hs.append({"config": {"rs": [1, 3, 20][k % 3], "cache": "file"}, "blobs": bl, "obs": [], "calls": calls, "_directed": True})
+                    k += 1
     return hs
 
 
